@@ -405,6 +405,10 @@ def check_C05(work):
             fam = "%s:%s" % (fr[0], "||".join(prog_name(p) for p in progs))
             # directories initially missing (no setup) and present
             jobs.append(conc_job("C05-%s-%d-nodirs" % (fr[0], i), fam + ":nodirs", fr, progs, dfs(n, 2), draw=ALWAYS, presetup=False))
+            # every check-then-act window of one participant with the other one running to completion inside it
+            jobs.append(conc_job("C05-%s-%d-nodirs-b" % (fr[0], i), fam + ":nodirs", fr, progs, bursts(Q(90, 400)), draw=ALWAYS, presetup=False))
+            jobs.append(conc_job("C05-%s-%d-b" % (fr[0], i), fam, fr, progs, bursts(Q(60, 400), stride=Q(2, 1), offset=seed() + i), draw=ALWAYS,
+                                 prefill=(("k3", "old3"),)))
             jobs.append(conc_job("C05-%s-%d" % (fr[0], i), fam, fr, progs, dfs(n, 2), draw=ALWAYS, prefill=(("k3", "old3"),)))
             jobs.append(conc_job("C05-%s-%d-rnd" % (fr[0], i), fam, fr, progs, rnd(Q(25, 400), seed() + 2000 + i), draw=ALWAYS, prefill=(("k3", "old3"),)))
         # adversary against ensure: the entry vanishes between ensure's insertion and its second lookup
@@ -1495,6 +1499,19 @@ def check_C04(work):
     for i, (a, b) in enumerate([([E(k)], [E(k)]), ([E(k)], [S(k), G(k)]), ([E(k)], [P(k), G(k)]), ([E(k), G(k)], [E(k)]), ([E(k)], [G(k), T(k)])]):
         jobs.append(conc_job("C04-ens-%d" % i, "stack:%s||%s" % (prog_name(a), prog_name(b)), stackf, (a, b), dfs(Q(120, 1200), Q(3, None)), cfg_extra={"key": k}))
     jobs.append(conc_job("C04-ens-3p", "stack:3p:ensure", stackf, ([E(k)], [E(k)], [E(k)]), rnd(Q(100, 1500), seed() + 77), cfg_extra={"key": k}))
+    # one failing call inside a writer (its rename / link / re-stamp ...) while readers look the key up: whatever the failed or retried
+    # operation does, no lookup ever sees the key absent or an older value than a completed set's
+    k_ = 0
+    for api, calls in (("S", ["rename", "utimens", "chmod", "open", "stat"]), ("P", ["link", "utimens", "chmod", "open", "stat", "unlink"])):
+        for call in calls:
+            for er in (["EIO", "ENOENT"] if call in ("rename", "link") else ["EIO"]):
+                for rd in (["G", "G"], ["T", "G"]):
+                    progs = ([dict(ops2[api])], [dict(ops2[x]) for x in rd])
+                    fam = "plain:%s(%s:%s)||%s:pre" % (api, call, er, "".join(rd))
+                    cj = conc_job("C04-flt-%d" % k_, fam, plainf, progs, bursts(Q(40, 200)), prefill=((k, "old"),), cfg_extra={"key": k})
+                    cj["stages"][-1]["parts"][0]["fault_all"] = {"call": call, "errno": er, "count": 1}
+                    jobs.append(cj)
+                    k_ += 1
     # step form of the register refinement on the same executions
     st0 = trace_check(work, out, jobs, ["PutNeverReplaces", "DirValid"], tag="c04")
     st0 = add_pool(work, out, st0, ["PutNeverReplaces"])
